@@ -26,6 +26,8 @@
                           element that has a child node gets a new text (None -> indentation of
                           its children) and its last child a new tail; C14_reindent_differs: the
                           re-indented tree is a different tree (with C03's converse: non-empty script).
+                          C14_reindent_widths_differ: so are two re-indentations of any document
+                          with different widths.
    C14_ws_text_no_markup  with WS_TEXT, _make_diff_tags maps both of its values through
                           cleanup_whitespace-then-strip (read from the source); a value that is
                           None or blank becomes "", so both sides are equal and diff_main(s, s)
@@ -75,6 +77,12 @@ Theorem C14_reindent_differs : forall s t a c,
   compact (IElem t a c) = true -> structured c = true -> reindent s (IElem t a c) <> IElem t a c.
 Proof. exact reindent_differs. Qed.
 Print Assumptions C14_reindent_differs.
+
+Theorem C14_reindent_widths_differ : forall s s' t a c,
+  structured c = true -> sc_width s <> sc_width s' ->
+  reindent s (IElem t a c) <> reindent s' (IElem t a c).
+Proof. exact reindent_widths_differ. Qed.
+Print Assumptions C14_reindent_widths_differ.
 
 Theorem C14_ws_text_no_markup : forall l r : option str,
   blank_or_none l -> blank_or_none r ->
